@@ -67,6 +67,25 @@ struct Watch {
     last_cpu: u64,
     idle_since: Instant,
     last_probe: Instant,
+    /// CPU budget of this run in seconds
+    cpu_limit: u64,
+}
+
+/// CPU budget of a run that cannot be a vanity search (no --vanity-prefix among its arguments): such runs take
+/// milliseconds (the largest: hashing 64 MiB, a 40000-step derivation - about a second).
+pub const NONSEARCH_CPU_LIMIT_S: u64 = 30;
+
+thread_local! {
+    static CPU_BUDGET_OVERRIDE: std::cell::Cell<Option<u64>> = const { std::cell::Cell::new(None) };
+}
+
+/// Runs `f` with the given CPU budget for the CLI runs it starts on this thread - for runs whose expected outcome
+/// is an immediate refusal (a vanity search that must not even start).
+pub fn with_cpu_budget<T>(secs: u64, f: impl FnOnce() -> T) -> T {
+    let old = CPU_BUDGET_OVERRIDE.with(|c| c.replace(Some(secs)));
+    let r = f();
+    CPU_BUDGET_OVERRIDE.with(|c| c.set(old));
+    r
 }
 
 /// CPU budget of one CLI run in seconds (user + system, all threads). The longest legitimate run is a
@@ -118,8 +137,8 @@ fn watchdog() -> &'static Mutex<Vec<Watch>> {
                     } else if now.duration_since(e.start) > Duration::from_secs(2) && now.duration_since(e.last_probe) > Duration::from_millis(500) {
                         e.last_probe = now;
                         if let Some((cpu, sleeping, n)) = probe(e.pid) {
-                            if cpu / ticks > CPU_LIMIT_S {
-                                verdict = Some(Some(format!("unbounded computation: consumed more than {CPU_LIMIT_S} CPU-seconds")));
+                            if cpu / ticks > e.cpu_limit {
+                                verdict = Some(Some(format!("unbounded computation: consumed more than {} CPU-seconds", e.cpu_limit)));
                             } else if cpu != e.last_cpu || !sleeping {
                                 e.last_cpu = cpu;
                                 e.idle_since = now;
@@ -397,7 +416,9 @@ pub fn run_raw(exe: &Path, args: &[OsString], env: &[(String, String)], stdin: &
     };
     let id = NEXT.fetch_add(1, Ordering::Relaxed);
     let now = Instant::now();
-    watchdog().lock().unwrap().push(Watch { pid: child.id(), start: now, deadline: now + timeout, id, last_cpu: 0, idle_since: now, last_probe: now });
+    let is_search = args.iter().any(|a| a.to_string_lossy().contains("--vanity-prefix"));
+    let cpu_limit = CPU_BUDGET_OVERRIDE.with(|c| c.get()).unwrap_or(if is_search { CPU_LIMIT_S } else { NONSEARCH_CPU_LIMIT_S });
+    watchdog().lock().unwrap().push(Watch { pid: child.id(), start: now, deadline: now + timeout, id, last_cpu: 0, idle_since: now, last_probe: now, cpu_limit });
     let sin = child.stdin.take();
     let data = stdin.to_vec();
     // One run in sixteen with input on a pipe or socket gets it in two or three writes with a pause in between
